@@ -8,6 +8,9 @@ import (
 	"go/types"
 
 	"golang.org/x/tools/go/packages"
+	"golang.org/x/tools/go/ssa"
+
+	"verif/checker/core"
 )
 
 // Lit is the statically evaluated form of a package-level composite literal
@@ -57,7 +60,30 @@ func evalGlobal(pk *packages.Package, name string) (*Lit, error) {
 	if e == nil {
 		return nil, fmt.Errorf("%s.%s has no initialiser", pk.Name, name)
 	}
-	return evalExpr(pk, e)
+	l, err := evalExpr(pk, e)
+	if err != nil {
+		// an initialiser computed by a pure nullary closure: fold it (ssaeval.go)
+		if call, ok := ast.Unparen(e).(*ast.CallExpr); ok && len(call.Args) == 0 {
+			if _, isLit := ast.Unparen(call.Fun).(*ast.FuncLit); isLit {
+				if fl := foldedGlobal(pk, obj); fl != nil {
+					return fl, nil
+				}
+			}
+		}
+	}
+	if err == nil {
+		// the initialiser is the variable's value only if nothing writes the variable afterwards (roglobal.go)
+		if prog := core.ProgramOf(pk.Types); prog != nil {
+			if sp := prog.SSA.Package(pk.Types); sp != nil {
+				if g, _ := sp.Members[name].(*ssa.Global); g != nil {
+					if why := globalWritten(prog, g, false); why != "" {
+						return nil, fmt.Errorf("%s.%s is not constant: %s", pk.Name, name, why)
+					}
+				}
+			}
+		}
+	}
+	return l, err
 }
 
 func evalExpr(pk *packages.Package, e ast.Expr) (*Lit, error) {
